@@ -322,7 +322,37 @@ func runAPI(t *testing.T, rc *core.RunCtx) {
 				rc.Logf("t=%s call %d GetBlock(%d) failed: %v", w.clock(), c.idx, h, c.err)
 				if honestReliable && c.defaultRetries && c.blk.Height > 0 && w.peers[0].sessions == 1 && w.peers[0].connected() &&
 					!w.cs.IsBanned(w.peers[0].addr.String()) {
-					rc.Failf("block-request-not-retried-with-honest-peer", nil,
+					// Who was asked for this block, how often?
+					why := "other"
+					asked := func(p *SimPeer) int {
+						k := 0
+						for _, g := range p.gotGetData {
+							if g == c.blk.Hash {
+								k++
+							}
+						}
+						return k
+					}
+					if asked(w.peers[0]) == 0 {
+						var holder *SimPeer
+						holders := 0
+						for _, p := range w.peers[1:] {
+							if asked(p) > 0 {
+								holder = p
+								holders++
+							}
+						}
+						if holders == 1 && asked(holder) >= 4 && holder.servedOK >= 3 {
+							kind := holder.beh.BlockLieAll
+							if k, ok := holder.beh.BlockLie[c.blk.Hash]; ok {
+								kind = k
+							}
+							if kind == blkSilent {
+								why = "every-retry-went-to-one-silent-peer-that-had-earned-a-good-rank"
+							}
+						}
+					}
+					rc.Failf("block-request-not-retried-with-honest-peer", map[string]string{"why": why},
 						"GetBlock(%d %s) failed (%v) although the honest node %s was connected all the time and serves the block",
 						h, short(c.blk.Hash), c.err, w.peers[0].addr.IP)
 				}
